@@ -151,6 +151,8 @@ type SeqEval struct {
 	// (clients check its initialiser and that nothing stores to it).
 	Depth int
 	Notes []string
+	// IntEnv gives loop-carried integers their value while one iteration of an unrolled loop is evaluated.
+	IntEnv map[ssa.Value]LinLen
 }
 
 func (e *SeqEval) resolve(v ssa.Value) ssa.Value {
@@ -248,6 +250,11 @@ func (e *SeqEval) Eval(v ssa.Value) Seq {
 		}
 		if x.Value.Kind() == constant.String {
 			return Seq{{Bytes: []byte(constant.StringVal(x.Value))}}
+		}
+	case *ssa.BinOp:
+		// string concatenation
+		if x.Op == token.ADD && isByteish(x.Type()) {
+			return append(append(Seq{}, e.Eval(x.X)...), e.Eval(x.Y)...)
 		}
 	case *ssa.Convert:
 		// []byte(string) and string([]byte) keep the bytes
@@ -386,7 +393,13 @@ func isByteish(t types.Type) bool {
 
 // EvalLen evaluates an int-valued SSA value built from len(), + and constants.
 func (e *SeqEval) EvalLen(v ssa.Value) LinLen {
+	if l, ok := e.IntEnv[v]; ok {
+		return l
+	}
 	v = e.resolve(v)
+	if l, ok := e.IntEnv[v]; ok {
+		return l
+	}
 	switch x := v.(type) {
 	case *ssa.Const:
 		if k, ok := ConstInt(x); ok {
@@ -505,4 +518,198 @@ func (e *SeqEval) EvalLenCases(v ssa.Value) []LenCase {
 		}
 	}
 	return one(e.EvalLen(v))
+}
+
+// LoopSumCases unrolls a range loop over a literal array or slice of known length that carries an integer: acc is the phi of
+// the carried integer at the loop head. For every combination of the ways through the body (one per element) it gives the
+// conditions — with the element of that iteration substituted — and the value the integer has when the loop is left. cond is the
+// loop's own continuation test (callers drop it from the path's conditions). ok is false when the loop is not of that shape.
+func (e *SeqEval) LoopSumCases(acc *ssa.Phi) (cases []LenCase, cond ssa.Value, ok bool) {
+	head := acc.Block()
+	iff, isIf := head.Instrs[len(head.Instrs)-1].(*ssa.If)
+	if !isIf || len(head.Succs) != 2 {
+		return nil, nil, false
+	}
+	cmp, isCmp := iff.Cond.(*ssa.BinOp)
+	if !isCmp || cmp.Op != token.LSS {
+		return nil, nil, false
+	}
+	idx := cmp.X
+	inc, isInc := idx.(*ssa.BinOp)
+	if !isInc || inc.Op != token.ADD {
+		return nil, nil, false
+	}
+	iphi, isPhi := inc.X.(*ssa.Phi)
+	if k, isK := ConstInt(inc.Y); !isPhi || !isK || k != 1 || iphi.Block() != head {
+		return nil, nil, false
+	}
+	body := head.Succs[0]
+	// the blocks of the loop: reachable from body without passing the head
+	inLoop := map[*ssa.BasicBlock]bool{}
+	work := []*ssa.BasicBlock{body}
+	for len(work) > 0 {
+		b := work[0]
+		work = work[1:]
+		if inLoop[b] || b == head {
+			continue
+		}
+		inLoop[b] = true
+		work = append(work, b.Succs...)
+	}
+	if inLoop[head.Succs[1]] {
+		return nil, nil, false
+	}
+	// the element of the iteration and the literal it is taken from
+	var elemVal ssa.Value
+	var elems []ssa.Value
+	for b := range inLoop {
+		for _, in := range b.Instrs {
+			switch x := in.(type) {
+			case *ssa.Index:
+				if x.Index == idx {
+					if ld, isLd := x.X.(*ssa.UnOp); isLd {
+						if al, isAl := ld.X.(*ssa.Alloc); isAl {
+							if el, okE := arrayElems(al); okE {
+								elemVal, elems = x, el
+							}
+						}
+					}
+				}
+			case *ssa.UnOp:
+				if ia, isIA := x.X.(*ssa.IndexAddr); isIA && x.Op == token.MUL && ia.Index == idx {
+					switch base := ia.X.(type) {
+					case *ssa.Alloc:
+						if el, okE := arrayElems(base); okE {
+							elemVal, elems = x, el
+						}
+					case *ssa.Slice:
+						if el, okE := SliceElems(base); okE {
+							elemVal, elems = x, el
+						}
+					}
+				}
+			}
+		}
+	}
+	if elemVal == nil || len(elems) == 0 || len(elems) > 6 {
+		return nil, nil, false
+	}
+	if n, isN := ConstInt(cmp.Y); isN && int(n) != len(elems) {
+		return nil, nil, false
+	}
+	entryIdx := -1
+	for k, pred := range head.Preds {
+		if !inLoop[pred] {
+			if entryIdx >= 0 {
+				return nil, nil, false
+			}
+			entryIdx = k
+		}
+	}
+	if entryIdx < 0 {
+		return nil, nil, false
+	}
+	cases = []LenCase{{L: e.EvalLen(acc.Edges[entryIdx])}}
+	for j := range elems {
+		elemSeq := e.Eval(elems[j])
+		sub := map[ssa.Value]ssa.Value{elemVal: elems[j]}
+		var next []LenCase
+		for _, prev := range cases {
+			// the ways through the body
+			type st struct {
+				b     *ssa.BasicBlock
+				atoms []Atom
+				trail []*ssa.BasicBlock
+			}
+			stack := []st{{b: body, trail: []*ssa.BasicBlock{head, body}}}
+			steps := 0
+			for len(stack) > 0 {
+				cur := stack[len(stack)-1]
+				stack = stack[:len(stack)-1]
+				steps++
+				if steps > 64 {
+					return nil, nil, false
+				}
+				last := cur.b.Instrs[len(cur.b.Instrs)-1]
+				var outs []st
+				switch t := last.(type) {
+				case *ssa.Jump:
+					outs = append(outs, st{b: cur.b.Succs[0], atoms: cur.atoms})
+				case *ssa.If:
+					for i, val := range []bool{true, false} {
+						outs = append(outs, st{b: cur.b.Succs[i], atoms: append(append([]Atom(nil), cur.atoms...), NormAtomSubst(t.Cond, val, sub))})
+					}
+				default:
+					return nil, nil, false // the body returns or panics: not a plain accumulation
+				}
+				for _, o := range outs {
+					if o.b == head {
+						// end of the iteration: the carried integer takes the value of the edge from this block
+						k := -1
+						for pi, pred := range head.Preds {
+							if pred == cur.b {
+								k = pi
+							}
+						}
+						if k < 0 {
+							return nil, nil, false
+						}
+						it := &SeqEval{Path: &Path{Blocks: cur.trail}, Env: map[ssa.Value]Seq{elemVal: elemSeq}, IntEnv: map[ssa.Value]LinLen{acc: prev.L}, Depth: e.Depth + 1}
+						for kk, vv := range e.Env {
+							it.Env[kk] = vv
+						}
+						l := it.EvalLen(acc.Edges[k])
+						if l.Bad != "" {
+							return nil, nil, false
+						}
+						next = append(next, LenCase{Atoms: append(append([]Atom(nil), prev.Atoms...), o.atoms...), L: l})
+						continue
+					}
+					if !inLoop[o.b] {
+						return nil, nil, false // the body leaves the loop early
+					}
+					o.trail = append(append([]*ssa.BasicBlock(nil), cur.trail...), o.b)
+					stack = append(stack, o)
+				}
+			}
+		}
+		if len(next) == 0 || len(next) > 256 {
+			return nil, nil, false
+		}
+		cases = next
+	}
+	return cases, iff.Cond, true
+}
+
+// arrayElems: the values stored into the elements of a local array literal (go/ssa: a local [N]T, one store per element).
+func arrayElems(al *ssa.Alloc) ([]ssa.Value, bool) {
+	arr, ok := Deref(al.Type()).Underlying().(*types.Array)
+	if !ok {
+		return nil, false
+	}
+	out := make([]ssa.Value, arr.Len())
+	for _, ref := range *al.Referrers() {
+		ia, ok := ref.(*ssa.IndexAddr)
+		if !ok {
+			continue
+		}
+		k, isK := ConstInt(ia.Index)
+		if !isK {
+			continue // a read at a variable index
+		}
+		for _, r2 := range *ia.Referrers() {
+			if st, ok := r2.(*ssa.Store); ok && st.Addr == ssa.Value(ia) {
+				if k < 0 || int(k) >= len(out) || out[k] != nil {
+					return nil, false
+				}
+				out[k] = st.Val
+			}
+		}
+	}
+	for _, v := range out {
+		if v == nil {
+			return nil, false
+		}
+	}
+	return out, true
 }
